@@ -42,7 +42,11 @@ Definition show_optlist (l : list (N * bytes)) : string :=
 Definition dispatch (kind : string) (args : list string) : string :=
   (* hist: all frames through one receive buffer; histf: a fresh buffer per frame.  The model does not
      distinguish them (retained fields are values): any difference is a correspondence failure. *)
-  if String.eqb kind "hist" || String.eqb kind "histf" then
+  if (String.eqb kind "hist" || String.eqb kind "histf") && cfg_rejected args then
+    out3 "rejected" "-" "-"      (* (Config).New returns an error for this configuration *)
+  else if String.eqb kind "restart" && (cfg_rejected args || cfg_rejected (skip_cfg args)) then
+    out3 "rejected" "-" "-"
+  else if String.eqb kind "hist" || String.eqb kind "histf" then
     match parse_cfg args with
     | Some (c, rest) =>
         match parse_ops rest with
@@ -50,7 +54,7 @@ Definition dispatch (kind : string) (args : list string) : string :=
             let h := with_ch0 ops in
             let '(s, rs) := run c (init c) h in
             let tr := trace c (init c) h in
-            let obs := show_trace tr s in
+            let obs := show_trace c tr s in
             let fs := map (c12_fails c) tr in
             if all_nil fs then out3 obs obs "-"
             else out3 obs ("viol " ++ show_fails fs) (hist_key (c12_class c) (combine tr fs) None)
@@ -75,7 +79,7 @@ Definition dispatch (kind : string) (args : list string) : string :=
                 let h := with_ch0 opsB in
                 let '(s, rs) := run cL s0 h in
                 let tr := trace cL s0 h in
-                let obs := show_trace tr s in
+                let obs := show_trace cL tr s in
                 let fs := map (c12_fails cL) tr in
                 if all_nil fs then out3 obs obs "-"
                 else out3 obs ("viol " ++ show_fails fs) (hist_key (c12_class cL) (combine tr fs) None)
